@@ -37,12 +37,14 @@ pub struct Cfg {
     /// regime and size knobs
     pub ite_pool: usize,
     pub full_ite: bool,
+    /// 0 = all functions of n variables are operands; 1 = cubes, clauses and functions of <= 2 variables
+    pub pool: u8,
 }
 
 impl Cfg {
     pub fn json(&self) -> Value {
         json!({"n": self.n, "order": self.order, "cache": match self.cache { CacheKind::All => json!("all"), CacheKind::Lru(None) => json!("lru-default"), CacheKind::Lru(Some(p)) => json!(format!("lru-2^{}", p)) },
-               "table_cap": self.table_cap, "issue": self.issue, "ite_pool": self.ite_pool, "full_ite": self.full_ite})
+               "table_cap": self.table_cap, "issue": self.issue, "ite_pool": self.ite_pool, "full_ite": self.full_ite, "pool": self.pool})
     }
     pub fn from_json(v: &Value) -> Option<Cfg> {
         let cache = match v["cache"].as_str()? {
@@ -58,6 +60,7 @@ impl Cfg {
             issue: v["issue"].as_u64()? as usize,
             ite_pool: v["ite_pool"].as_u64()? as usize,
             full_ite: v["full_ite"].as_bool()?,
+            pool: v["pool"].as_u64().unwrap_or(0) as u8,
         })
     }
     fn var_order(&self) -> VarOrder {
@@ -135,6 +138,7 @@ struct Sw<'a, 'e, T: IteTable<'a, BddPtr<'a>> + Default> {
     compl_roots: u64,
     new_funcs: u64,
     stop: bool,
+    mat: Vec<usize>,
 }
 
 fn structure_digest(p: BddPtr) -> u64 {
@@ -231,7 +235,8 @@ impl<'a, 'e, T: IteTable<'a, BddPtr<'a>> + Default> Sw<'a, 'e, T> {
 
     /// "keeps denoting the same function": re-evaluate every materialised function
     fn recheck_pool(&mut self) {
-        for t in 0..self.f.len() {
+        for k in 0..self.mat.len() {
+            let t = self.mat[k];
             let want = tt::extend(t as TT, self.cfg.n, self.n);
             let got = bdd_tt(self.f[t], self.n);
             self.rep.evaluations += 1;
@@ -359,10 +364,47 @@ impl<'a, 'e, T: IteTable<'a, BddPtr<'a>> + Default> Sw<'a, 'e, T> {
         self.b.ite(x, hi, lo)
     }
 
-    fn materialise_all(&mut self) {
+    fn materialise_all(&mut self) -> Vec<usize> {
         let n = self.n;
         let total = 1usize << (1usize << n);
-        for t in 0..total {
+        let dom: Vec<usize> = if self.cfg.pool == 0 {
+            (0..total).collect()
+        } else {
+            let mut v: Vec<usize> = vec![0, total - 1];
+            for code in 0..3usize.pow(n as u32) {
+                let mut c = code;
+                let mut t = tt::mask(n);
+                for x in 0..n {
+                    match c % 3 {
+                        1 => t &= tt::var(x, n),
+                        2 => t &= tt::not(tt::var(x, n), n),
+                        _ => (),
+                    }
+                    c /= 3;
+                }
+                v.push(t as usize);
+                v.push(tt::not(t, n) as usize);
+            }
+            for a in 0..n {
+                for c in (a + 1)..n {
+                    for t2 in 0..16u64 {
+                        let mut t = 0u64;
+                        for asg in 0..(1usize << n) {
+                            let i2 = ((asg >> a) & 1) | (((asg >> c) & 1) << 1);
+                            if (t2 >> i2) & 1 == 1 {
+                                t |= 1 << asg;
+                            }
+                        }
+                        v.push(t as usize);
+                    }
+                }
+            }
+            v.sort();
+            v.dedup();
+            v
+        };
+        self.f = vec![BddPtr::PtrFalse; total];
+        for &t in dom.iter() {
             let r = guarded(|| self.shannon(t as TT, 0));
             let r = match r {
                 Ok(r) => r,
@@ -372,10 +414,12 @@ impl<'a, 'e, T: IteTable<'a, BddPtr<'a>> + Default> Sw<'a, 'e, T> {
                     BddPtr::PtrFalse
                 }
             };
-            self.f.push(r);
+            self.f[t] = r;
+            self.mat.push(t);
             let op = Op::Materialise(t as TT);
             self.check(Ok(r), t as TT, &op);
         }
+        dom
     }
 }
 
@@ -422,13 +466,14 @@ fn sweep<'a, 'e, T: IteTable<'a, BddPtr<'a>> + Default>(
         compl_roots: 0,
         new_funcs: 0,
         stop: false,
+        mat: Vec::new(),
     };
     s.rep.exhaustive = true;
     s.canon.insert(tt::mask(n), (0, false));
     s.canon.insert(0, (0, true));
-    s.materialise_all();
-    let total = s.f.len();
-    let perm = issue_perm(cfg.issue, total);
+    let dom = s.materialise_all();
+    let total = dom.len();
+    let perm: Vec<usize> = issue_perm(cfg.issue, total).into_iter().map(|i| dom[i]).collect();
     // all ordered pairs x {and, or, xor, iff}
     'outer: for &i in perm.iter() {
         for &j in perm.iter() {
@@ -895,6 +940,7 @@ fn run_order_group(order: &[usize], n: usize, ctx: &Ctx, issue: usize, full_ite_
         issue,
         ite_pool,
         full_ite: full_ite_all,
+        pool: 0,
     };
     let (mut rep, digests) = run_sweep_cfg(&base, None, ctx);
     let mut lossy: Vec<Cfg> = Vec::new();
@@ -953,13 +999,32 @@ pub fn run_all(ctx: &Ctx) -> Report {
     let growths = r2.extra.get("table_growths").and_then(|v| v.as_u64()).unwrap_or(0);
     let compl = r2.extra.get("complemented_roots_seen").and_then(|v| v.as_u64()).unwrap_or(0);
     rep.merge(r2);
+    // R4, n = 4: operand pool (cubes, clauses, every function of <= 2 variables), every ordered
+    // pair, under all 24 orders, cache-everything and two lossy capacities in lock step
+    let items4: Vec<(usize, Vec<usize>)> = permutations(4).into_iter().enumerate().collect();
+    let r4 = par_run(ctx, &items4, |i, (_, o)| {
+        let base = Cfg { n: 4, order: o.clone(), cache: CacheKind::All, table_cap: 2, issue: i + ctx.seed as usize, ite_pool: ctx.tier.pick(20, 48), full_ite: false, pool: 1 };
+        let (mut r, dig) = run_sweep_cfg(&base, None, ctx);
+        r.add_extra("configurations", 1);
+        for cache in [CacheKind::Lru(Some(0)), CacheKind::Lru(Some(3))] {
+            let mut c = base.clone();
+            c.cache = cache;
+            let (x, _) = run_sweep_cfg(&c, Some(&dig), ctx);
+            r.add_extra("configurations", 1);
+            r.merge(x);
+        }
+        r
+    });
+    rep.bound("R4", json!({"variables": 4, "orders": 24, "operands": "all cubes, all clauses, every function of <= 2 variables (about 230)", "pairs": "all ordered pairs x and/or/xor/iff; unary ops, compose, ite pool, lists, new_var", "caches": ["all", "lru-2^0", "lru-2^3"]}));
+    rep.add_extra("R4_operations", r4.transitions);
+    rep.merge(r4);
     rep.floor("R2: unique-table growths", growths, 1);
     rep.floor("R2: complemented roots seen", compl, 1);
     // R1, n = 2
     let mut r1cfgs: Vec<Cfg> = Vec::new();
     for o in permutations(2) {
         for (cache, cap) in [(CacheKind::All, 2usize), (CacheKind::Lru(Some(0)), 2), (CacheKind::Lru(Some(1)), 2)] {
-            r1cfgs.push(Cfg { n: 2, order: o.clone(), cache, table_cap: cap, issue: 0, ite_pool: 0, full_ite: false });
+            r1cfgs.push(Cfg { n: 2, order: o.clone(), cache, table_cap: cap, issue: 0, ite_pool: 0, full_ite: false, pool: 0 });
         }
     }
     let depth = ctx.tier.pick(2, 3);
